@@ -45,6 +45,12 @@ def rule_guard_id(ctx, tu):
                               "under !%s" % flag if guarded else "adds mesh_dxdt[%s]*dt, which is 0 for flagged entries" % I,
                               "an amount is written without a dominating test of the chemostat flag of the same "
                               "entry (%s): a chemostated entry changes" % flag)
+                    # ... and of no other entry: a free entry evolves as the rate law says whatever its neighbours' flags
+                    foreign = sorted(t for t, _ in facts if isinstance(t, str) and t.startswith("mesh_chstt[") and t != flag)
+                    ctx.check(not foreign, R, s.node, m.qual, text(s.node)[:80] + " (no foreign flag)",
+                              "depends on its own flag only", "the update of entry %s also depends on the chemostat flag of "
+                              "another entry (%s): a flagged entry stops acting as a source or sink for its neighbours" %
+                              (I, ", ".join(foreign)[:120]), nontrivial=False)
                 else:
                     n_d += 1
                     zero = s.op == "=" and cxa.const_int(s.rhs) == 0
@@ -217,5 +223,10 @@ def run(ctx):
     ctx.floor("C03.TRANSPOSE", 2)
     rule_py_kind(ctx, py)
     rule_flag_id(ctx, py)
+    # the map the engines consult is the map of the system: it crosses the ctypes boundary as an int array built by
+    # make_ctypes_array(..., c_int) (a raw numpy buffer is int64 on this platform: every flag but the first lands elsewhere)
+    from .. import ffi
+    ffi.rule_sig(ctx, "C03.FFI", only={"mesh_chstt"})
+    ctx.floor("C03.FFI", 2)
     ctx.assume("equality with the recorded initial value is decided only as 'never written after Init' "
                "(t = 0 processing is C14)")
